@@ -214,7 +214,7 @@ func (r *rewriter) collect() {
 				break
 			}
 			r.need = true
-			r.add(x, func() string { return "vsched.Send(" + r.node(x.Chan) + ", " + r.node(x.Value) + ")" })
+			r.add(x, func() string { return "vsched.SendFn(" + r.node(x.Chan) + ")(" + r.node(x.Value) + ")" })
 		case *ast.UnaryExpr:
 			if x.Op != token.ARROW {
 				break
@@ -351,7 +351,7 @@ func (r *rewriter) genSelect(x *ast.SelectStmt) string {
 		decl := ""
 		switch s := cc.Comm.(type) {
 		case *ast.SendStmt:
-			fmt.Fprintf(&pre, "%s := vsched.SendCase(%s, %s)\n", nm, r.node(s.Chan), r.node(s.Value))
+			fmt.Fprintf(&pre, "%s := vsched.SendCaseFn(%s)(%s)\n", nm, r.node(s.Chan), r.node(s.Value))
 		case *ast.ExprStmt:
 			u := unparen(s.X).(*ast.UnaryExpr)
 			fmt.Fprintf(&pre, "%s := vsched.RecvCase(%s)\n", nm, r.node(u.X))
